@@ -21,7 +21,8 @@ from gemato.exceptions import (ManifestSymlinkLoop, ManifestCrossDevice,
 
 PROPERTY = 'C16'
 LEVEL = 'exploration'
-RULE = ('(loops) Hypothesis: 1..6 real directories (any shape), 0..3 files '
+RULE = ('(profile-ignored, exhaustive: 2 profiles x 4 default-ignored names x loop/foreign filesystem x create/update) nothing beneath a directory the profile IGNOREs by default is entered. ' 
+        '(loops) Hypothesis: 1..6 real directories (any shape), 0..3 files '
         'each, up to 4 directory symlinks (targets: self, parent, any '
         'ancestor, sibling, cousin, mutual pairs, chains, dangling; visible '
         'and hidden link names), IGNORE on the link, above it or on a '
